@@ -5,7 +5,7 @@
 (* is a parameter, so the same machine serves the Wilkinson grammar and    *)
 (* the linear-constraint grammar (utils/constraints.py).                   *)
 (*                                                                         *)
-(* Tokens are records [k, s, cs, vars]:                                    *)
+(* Tokens are records [k, s, cs, vars, num, ival]:                                    *)
 (*   k  in {"name","value","python","op","open","close"}                   *)
 (*   s  the text of a non-operator token (for open/close: "(" "[" ")" "]") *)
 (*   cs the symbols of an operator run (sequence of 1-symbol strings)      *)
@@ -28,7 +28,7 @@ CONSTANTS Table,          \* function: symbol -> sequence of candidates, sorted 
 NoCand == [sym |-> "", id |-> "", arity |-> 0, prec |-> 0, assoc |-> "none", fix |-> "infix", ctx |-> "any", flag |-> ""]
 
 Leaf(tok) == [n |-> "leaf", tok |-> tok, c |-> NoCand, args |-> <<>>]
-Node(c, args) == [n |-> "node", tok |-> [k |-> "", s |-> "", cs |-> <<>>, vars |-> <<>>], c |-> c, args |-> args]
+Node(c, args) == [n |-> "node", tok |-> [k |-> "", s |-> "", cs |-> <<>>, vars |-> <<>>, num |-> FALSE, ival |-> -1], c |-> c, args |-> args]
 
 Init0(flags) == [stack |-> <<>>, queue |-> <<>>, err |-> "", flags |-> flags]
 Err(m, e) == IF m.err = "" THEN [m EXCEPT !.err = e] ELSE m
